@@ -38,6 +38,9 @@ func main() {
 	smtlog := flag.String("smtlog", "", "write SMT-LIB2 transcript here")
 	trace := flag.Bool("trace", false, "trace instructions")
 	out := flag.String("out", "", "result JSON path (default stdout)")
+	samples := flag.Int("samples", 0, "record input models of up to N completed paths")
+	excludeF := flag.String("exclude", "", "JSON file: obligation id -> [{name,pred}] known-finding input classes")
+	fixlist := flag.String("fixlist", "", "JSON file with a list of {harness,inputs,tag}: run each concretely")
 	dump := flag.Bool("dump", false, "dump SSA of entry")
 	stubs := flag.String("stubs", "", "comma-separated name=kind extra stubs")
 	flag.Parse()
@@ -130,6 +133,21 @@ func main() {
 		}
 	}
 
+	var exclude map[string][]symex.Exclusion
+	if *excludeF != "" {
+		data, err := os.ReadFile(*excludeF)
+		if err != nil {
+			fatal(err)
+		}
+		if err := json.Unmarshal(data, &exclude); err != nil {
+			fatal(err)
+		}
+	}
+	if *fixlist != "" {
+		runFixList(prog, target, *fixlist, *solverBin, *qtimeout, *unwind, *panics, stubMap, *out)
+		return
+	}
+
 	results := map[string]interface{}{}
 	for _, entry := range strings.Split(*entries, ",") {
 		fn := target.Func(entry)
@@ -143,7 +161,7 @@ func main() {
 		if err != nil {
 			fatal(err)
 		}
-		c := symex.Config{Unwind: *unwind, MaxPaths: *maxPaths, MaxSteps: *maxSteps, PanicMode: *panics, Fixed: fixed, Trace: *trace, Stubs: stubMap}
+		c := symex.Config{Unwind: *unwind, MaxPaths: *maxPaths, MaxSteps: *maxSteps, PanicMode: *panics, Fixed: fixed, Trace: *trace, Stubs: stubMap, SampleModels: *samples, Exclude: exclude}
 		if *deadline > 0 {
 			c.Deadline = time.Now().Add(time.Duration(*deadline) * time.Second)
 		}
@@ -164,6 +182,83 @@ func main() {
 	} else {
 		os.Stdout.Write(enc)
 		fmt.Println()
+	}
+}
+
+type fixVec struct {
+	Harness string            `json:"harness"`
+	Inputs  map[string]string `json:"inputs"`
+	Tag     string            `json:"tag,omitempty"`
+}
+
+type fixOut struct {
+	Harness   string   `json:"harness"`
+	Tag       string   `json:"tag,omitempty"`
+	Failed    []string `json:"failed"`
+	PanicAt   string   `json:"panic_at,omitempty"`
+	Observes  map[string][]string `json:"observes"`
+	Reached   []string `json:"reached"`
+	Completed bool     `json:"completed"`
+	Infeasible bool    `json:"infeasible"`
+	Unsupported []string `json:"unsupported,omitempty"`
+	Unwinds   []string `json:"unwinds,omitempty"`
+}
+
+func runFixList(prog *ssa.Program, target *ssa.Package, path, solverBin string, qtimeout, unwind int, panics string, stubs map[string]string, out string) {
+	data, err := os.ReadFile(path)
+	if err != nil {
+		fatal(err)
+	}
+	var vecs []fixVec
+	if err := json.Unmarshal(data, &vecs); err != nil {
+		fatal(err)
+	}
+	sol, err := symex.NewSolver(solverBin, qtimeout, "")
+	if err != nil {
+		fatal(err)
+	}
+	defer sol.Close()
+	var outs []fixOut
+	for _, v := range vecs {
+		fn := target.Func(v.Harness)
+		if fn == nil {
+			fatal(fmt.Errorf("harness %s not found", v.Harness))
+		}
+		fixed := map[string]*big.Rat{}
+		for k, s := range v.Inputs {
+			if s == "true" {
+				s = "1"
+			} else if s == "false" {
+				s = "0"
+			}
+			r, ok := new(big.Rat).SetString(s)
+			if !ok {
+				fatal(fmt.Errorf("bad value %s=%s", k, s))
+			}
+			fixed[k] = r
+		}
+		c := symex.Config{Unwind: unwind, MaxPaths: 10, MaxSteps: 5000000, PanicMode: panics, Fixed: fixed, Stubs: stubs}
+		in := symex.NewInterp(prog, sol, c)
+		res := in.Run(fn)
+		o := fixOut{Harness: v.Harness, Tag: v.Tag, Observes: res.Observes, Completed: res.Paths == 1, Infeasible: res.Paths == 0 && res.PathsPanic == 0 && len(res.Unsupported) == 0,
+			Unsupported: res.Unsupported, Unwinds: res.Unwinds}
+		for _, cnd := range res.Candidates {
+			if cnd.Kind == "panic" {
+				o.PanicAt = cnd.Site
+			} else if cnd.Kind == "assert" {
+				o.Failed = append(o.Failed, cnd.ID)
+			}
+		}
+		for k := range res.Reach {
+			o.Reached = append(o.Reached, k)
+		}
+		outs = append(outs, o)
+	}
+	enc, _ := json.MarshalIndent(outs, "", " ")
+	if out != "" {
+		os.WriteFile(out, enc, 0o644)
+	} else {
+		os.Stdout.Write(enc)
 	}
 }
 
